@@ -22,6 +22,7 @@ func runC13(c *Ctx) {
 	defer c13DecodeTargetReset(c)
 	defer c13CancellationMarker(c)
 	defer checkSearchFlags(c, "C13-R2", "internal/promapi.AppendSampleToRanges", "internal/promapi.MergeRanges", "internal/promapi.SeriesTimeRanges.FindGaps")
+	defer c14HashIsADigest(c, "C13-R2")
 	rq := c.MustFunc("C13-R1", "internal/promapi.Prometheus.RangeQuery")
 	if rq == nil {
 		return
